@@ -23,7 +23,9 @@ CONSTANTS Msgs,       \* sequence of message templates [typ, chars, frames]; fra
           MaxExtra,   \* bound on the number of other environment events (ping/pong, close, EOF, injection)
           Acts,       \* what the addon may do in the hook: subset of -1..Len(Edits) (-1 drop, 0 keep, e: write Edits[e])
           Batches,    \* BOOLEAN: two messages may arrive in one TCP segment
-          AfterClose  \* BOOLEAN: peers keep sending after the layer has processed a close
+          AfterClose, \* BOOLEAN: peers keep sending after the layer has processed a close
+          WithFinish  \* BOOLEAN: the end-of-behaviour step is part of the graph (FALSE: the harness appends it to every
+                      \* replayed behaviour itself, which halves the dumped graph)
 VARIABLES env,      \* per direction: template being sent and number of frames sent; closed: close frame/EOF sent
           cur,      \* per direction, layer side: [dc: characters decoded so far, fl: finished frame_buf entries]
           hk,       \* pending websocket_message hook [on, d, typ, c, fl, inj]
@@ -228,7 +230,7 @@ HookDone(e) ==
                  ELSE [w0 EXCEPT !.out = Append(@, [k |-> "deliver", d |-> hk.d, typ |-> hk.typ, c |-> fr[1], frags |-> fr[2]])]
      IN Commit(DrainQ(Run(w1)))
 
-Finish == /\ Live /\ UNCHANGED <<env, cur, hk, rest, q, done, cnt>> /\ Emit(<<[k |-> "end"]>>)
+Finish == /\ Live /\ WithFinish /\ UNCHANGED <<env, cur, hk, rest, q, done, cnt>> /\ Emit(<<[k |-> "end"]>>)
 
 Next == \/ \E d \in Dirs, t \in 1..Len(Msgs) : SendFrame(d, t)
         \/ \E d \in Dirs, t1 \in 1..Len(Msgs), t2 \in 1..Len(Msgs) : SendTwo(d, t1, t2)
